@@ -284,6 +284,19 @@ pub fn seed_vault_drained() -> Vec<Act> {
     ]
 }
 
+/// mirror image with smaller positions: alice and bob short 20x10, alice closes in profit; the fund advances her
+/// profit (prepaid bad debt) and bob is left deep under water with an empty vault. A later liquidation of bob realises
+/// slightly more bad debt than was prepaid.
+pub fn seed_vault_drained_shorts() -> Vec<Act> {
+    vec![
+        Act::blk(15),
+        Act::open("alice", false, 20 * D, 10 * D),
+        Act::open("bob", false, 20 * D, 10 * D),
+        Act::blk(15),
+        Act::close("alice"),
+    ]
+}
+
 /// everything in one block: carol pumps, alice and bob open long at the top, carol closes; alice and
 /// bob are far below maintenance on spot and on TWAP within the same block
 pub fn seed_same_block_cascade() -> Vec<Act> {
